@@ -22,7 +22,7 @@ func (d DirectIOFactory) CreateNewReader(filePath string, bufSize int) (*os.File
 }
 
 func (d DirectIOFactory) CreateNewWriter(filePath string, bufSize int) (*os.File, WriteSeekerCloserFlusher, error) {
-	writeFile, err := directio.OpenFile(filePath, os.O_WRONLY|os.O_CREATE, 0666)
+	writeFile, err := directio.OpenFile(filePath, os.O_WRONLY|os.O_CREATE|os.O_TRUNC, 0666)
 	if err != nil {
 		return nil, nil, err
 	}
